@@ -8,6 +8,7 @@ import (
 	"encoding/json"
 	"errors"
 	"fmt"
+	"io"
 	"io/fs"
 	"os"
 	"path"
@@ -55,7 +56,7 @@ type subject struct {
 	close    func()
 }
 
-var kinds = []string{"mem", "kvplain", "mount2", "submem", "submountpt", "cache", "tar", "osfs", "sublenient"}
+var kinds = []string{"mem", "kvplain", "mount2", "submem", "submountpt", "cache", "tar", "tarbroken", "tarcanceled", "osfs", "sublenient"}
 
 func must(err error) {
 	if err != nil {
@@ -100,7 +101,7 @@ func build(kind string, setup []ops.Op) *subject {
 		c, err := cache.NewReadOnlyFS(src, store, cache.ReadOnlyOptions{})
 		must(err)
 		return &subject{fs: c, parts: []hackpadfs.FS{c, src, store}, readOnly: true, close: func() {}}
-	case "tar":
+	case "tar", "tarbroken", "tarcanceled":
 		src := subj.NewMem()
 		for _, op := range setup {
 			_ = ops.ApplyFS(src, op)
@@ -125,15 +126,38 @@ func build(kind string, setup []ops.Op) *subject {
 				must(err)
 			}
 		}
+		if kind == "tarbroken" {
+			// a last entry that the cut below falls into
+			must(tw.WriteHeader(&tar.Header{Name: "zz-last", Typeflag: tar.TypeReg, Mode: 0o644, Size: 3000}))
+			_, err := tw.Write(bytes.Repeat([]byte{'z'}, 3000))
+			must(err)
+		}
 		must(tw.Close())
 		dest := subj.NewMem()
-		tfs, err := htar.NewReaderFS(context.Background(), &buf, htar.ReaderFSOptions{UnarchiveFS: dest})
+		ctx := context.Background()
+		var r io.Reader = &buf
+		switch kind {
+		case "tarbroken":
+			// a tar FS whose unpacking FAILED (archive cut inside the last entry): names are still validated first
+			r = bytes.NewReader(buf.Bytes()[:buf.Len()-2500])
+		case "tarcanceled":
+			c, cancel := context.WithCancel(ctx)
+			cancel()
+			ctx = c
+		}
+		tfs, err := htar.NewReaderFS(ctx, r, htar.ReaderFSOptions{UnarchiveFS: dest})
 		must(err)
 		select {
 		case <-tfs.Done():
 		case <-time.After(vf.WatchdogDur()):
 			panic("tar unpack did not finish")
 		}
+		if kind != "tar" && tfs.UnarchiveErr() != nil {
+			// unpacking failed: the tar FS answers valid names with the unarchive error, and background writers may still be
+			// finishing in the destination, so there is no stable state to compare: only the results of the probes count
+			return &subject{fs: tfs, parts: nil, readOnly: true, close: func() {}}
+		}
+		// (a cancelled context is not noticed when the archive has no entries: then this is a healthy tar FS)
 		return &subject{fs: tfs, parts: []hackpadfs.FS{tfs, dest}, readOnly: true, close: func() {}}
 	}
 	panic(kind)
@@ -479,15 +503,17 @@ func run(t *testing.T, kind string) {
 	})
 }
 
-func TestMem(t *testing.T)        { run(t, "mem") }
-func TestKVPlain(t *testing.T)    { run(t, "kvplain") }
-func TestMount2(t *testing.T)     { run(t, "mount2") }
-func TestSubMem(t *testing.T)     { run(t, "submem") }
-func TestSubMountPt(t *testing.T) { run(t, "submountpt") }
-func TestCache(t *testing.T)      { run(t, "cache") }
-func TestTar(t *testing.T)        { run(t, "tar") }
-func TestOSFS(t *testing.T)       { run(t, "osfs") }
-func TestSubLenient(t *testing.T) { run(t, "sublenient") }
+func TestMem(t *testing.T)         { run(t, "mem") }
+func TestKVPlain(t *testing.T)     { run(t, "kvplain") }
+func TestMount2(t *testing.T)      { run(t, "mount2") }
+func TestSubMem(t *testing.T)      { run(t, "submem") }
+func TestSubMountPt(t *testing.T)  { run(t, "submountpt") }
+func TestCache(t *testing.T)       { run(t, "cache") }
+func TestTar(t *testing.T)         { run(t, "tar") }
+func TestTarBroken(t *testing.T)   { run(t, "tarbroken") }
+func TestTarCanceled(t *testing.T) { run(t, "tarcanceled") }
+func TestOSFS(t *testing.T)        { run(t, "osfs") }
+func TestSubLenient(t *testing.T)  { run(t, "sublenient") }
 
 func TestReplayAll(t *testing.T) {
 	for _, kind := range append(append([]string{}, kinds...), "fuzznames") {
